@@ -99,7 +99,7 @@ type histOp struct {
 // runHistory plays ops on one shared engine with shared environment objects and returns the
 // outputs; fresh=true plays every op on a new engine with fresh copies instead.
 func historyCase(r *rand.Rand, progs []string, idx int) Case {
-	if guardBegin("history "+strings.Join(progs, " ; ")) {
+	if guardBegin("history " + strings.Join(progs, " ; ")) {
 		return crashCase("history " + strings.Join(progs, " ; "))
 	}
 	defer guardEnd()
@@ -122,7 +122,7 @@ func historyCase(r *rand.Rand, progs []string, idx int) Case {
 	mode := []string{"struct", "typeenv", "map"}[r.Intn(3)]
 	backendName := []string{"vm", "closure", "interp"}[r.Intn(3)]
 	newExpr := func() *yae.Expr {
-		e := yae.NewExpr()
+		e := yae.NewExpr().RegisterFun(historyHostFuns()...)
 		switch backendName {
 		case "closure":
 			e.UseClosureCompiler()
@@ -273,6 +273,34 @@ func historyCase(r *rand.Rand, progs []string, idx int) Case {
 	return c
 }
 
+// historyHostFuns: host functions registered on every engine of the history stream — strict,
+// lazy (forcing one, both, or one of two by a condition) and polymorphic — so that whatever an
+// engine or a compiled expression remembers about a call (thunks, caches) is exercised by the
+// repeated and interleaved invocations with different environments.  Pure: no output, no state.
+func historyHostFuns() []*val.Val {
+	num2 := []*types.Type{types.Num, types.Num}
+	a := types.TyVar("a")
+	return []*val.Val{
+		val.Fun(types.Fun("hid", []*types.Type{types.Num}, types.Num), func(x ...*val.Val) *val.Val { return x[0] }),
+		val.Fun(types.Fun("hadd", num2, types.Num), func(x ...*val.Val) *val.Val { return val.Num(x[0].Num().V + x[1].Num().V) }),
+		val.LazyFun(types.Fun("hfst", num2, types.Num), func(x ...*val.Val) *val.Val { return x[0].Fun().Call() }),
+		val.LazyFun(types.Fun("hboth", num2, types.Num), func(x ...*val.Val) *val.Val {
+			return val.Num(x[0].Fun().Call().Num().V*1000 + x[1].Fun().Call().Num().V + x[1].Fun().Call().Num().V)
+		}),
+		val.LazyFun(types.Fun("hpick", []*types.Type{types.Bool, a, a}, a), func(x ...*val.Val) *val.Val {
+			if x[0].Fun().Call().Bool().V {
+				return x[1].Fun().Call()
+			}
+			return x[2].Fun().Call()
+		}),
+	}
+}
+
+var historyHostPrograms = []string{
+	`hpick(b1, n1 + 1, n2 * 2)`, `hfst(n1 + n2, n2)`, `hboth(n1, n2 + 1)`, `hpick(o.y, s1, "z") + s1`, `hid(n1) + hadd(n2, len(xs))`,
+	`hpick(b1, xs, [n1])`, `hfst(hboth(n1, n2), n1)`, `if(b1, hfst(n1, 0), hboth(n2, n1))`, `hpick(n1 > n2, o.x, get(m, "k1", n2))`,
+}
+
 func mapOfHost(h hostEnv) map[string]interface{} {
 	m := map[string]interface{}{"n1": h.N1, "n2": h.N2, "s1": h.S1, "b1": h.B1, "t1": h.T1,
 		"xs": h.Xs, "ss": h.Ss, "m": h.M, "o": h.O}
@@ -298,7 +326,7 @@ func trim(s string) string {
 func init() {
 	register(&Stream{
 		Name: "history",
-		Rule: "random sequences (6-15 operations) of Compile / invoke on ONE engine with three shared environment objects (host structs, *types.Env/*val.Env pairs, or map[string]interface{}), each invoke run twice; every output is compared with the same operation on a fresh engine with fresh copies; stdout captured; host values deep-compared before/after. Programs come from the type-directed generator over the host environment (maps with several entries included). Non-trivial = every case; distinct = distinct operation sequence.",
+		Rule: "random sequences (6-15 operations) of Compile / invoke on ONE engine with three shared environment objects (host structs, *types.Env/*val.Env pairs, or map[string]interface{}), each invoke run twice; every output is compared with the same operation on a fresh engine with fresh copies; stdout captured; host values deep-compared before/after. Every engine has five pure host functions registered (strict, lazy forcing one / both / one of two, polymorphic) and a third of the programs call them. Programs come from the type-directed generator over the host environment (maps with several entries included). Non-trivial = every case; distinct = distinct operation sequence.",
 		Gen: func(r *rand.Rand, n int, thorough bool) []Case {
 			var cs []Case
 			stats := map[string]int{}
@@ -313,6 +341,9 @@ func init() {
 					}
 					if r.Intn(8) == 0 {
 						src = g.breakType(src)
+					}
+					if r.Intn(3) == 0 {
+						src = historyHostPrograms[r.Intn(len(historyHostPrograms))]
 					}
 					progs = append(progs, src)
 				}
